@@ -36,7 +36,8 @@ def r2_leaf(run, tree):
 def r3(run, tree):
     run.rule("C12.R3", "find_max_amr_level returns the highest accepted level", "D7 on a list model", "", floor=6)
     iof.check_find_max_level(run, tree)
-    lr.check_hilbert_cpu_list(run, tree)
+    from . import hilbert_folds as hf
+    hf.check_hilbert_cpu_list_fold(run, tree)
 
 
 def r_shared_c12_r4(run, tree):
